@@ -15,6 +15,11 @@ CHECKS = {
     technique="schedule exploration (systematic concurrency testing in the PBT family): real threads made cooperative by a sys.settrace scheduler the harness owns (pbt/sched.py); exhaustive single-pre-emption schedules, a grid of double pre-emptions, Hypothesis-generated pre-emption lists and PCT priority schedules, plus un-scheduled stress; oracle: byte-identical response to the request processed alone, WSDL built at most once, all ?wsdl callers get the sequential document, no escape, no deadlock",
     text="Exploration: mixes of 2-4 requests (?wsdl, cold and warm rpc calls over XML/SOAP/JSON/HttpRpc, schema-invalid and raising requests) against ONE fresh WsgiApplication on real threads; a scheduler installed with sys.settrace lets exactly one thread run and moves the baton only at yield points (every line inside handle_wsdl_request, wsdl11.py, xml_schema/_base.py, get_cls_attrs, sort_fields, memoize.__call__, __validate_lxml; every call elsewhere under spyne/protocol, server, interface, application.py); spyne's locks are replaced by scheduler-aware ones. Quick: all orders without pre-emption, ALL single-pre-emption schedules (stride 1, both start orders) for 17 of 20 two-thread mixes, an 8x8 grid of double pre-emptions, generated lists of <=4 pre-emptions and PCT schedules for all mixes, 6400 free-running stress requests (~30k schedules). Thorough: all 20 mixes, 48x48 grids (~230k schedules). Bounds: Python line/call granularity (switches inside C code only in the stress part), a line is a yield point the first two times one activation reaches it, 3+ pre-emptions and 3-4-thread mixes sampled.",
     note="Trusted: the scheduler (pbt/sched.py; selftested on synthetic racy/locked workers), determinism of a request processed alone (each alone-response is computed twice and must agree). Runs whose worker blocks outside the scheduler's view for 2 s are counted inconclusive, never judged."),
+ "C14": dict(
+    design="DESIGN.md §3 C14",
+    technique="exhaustive grid enumeration with injected failures + property-based testing (Hypothesis-generated argument values on random grid cells); oracle: specification automaton over the event trace recorded by listeners at application / service / method level and protocol / transport observers",
+    text="Exploration: the whole grid protocol family {xml, soap11, json, msgpack, yaml, HttpRpc GET} x transport {ServerBase pipeline, WsgiApplication, NullServer with and without ostr} x failure point {success, malformed bytes, 3 bad SOAP envelopes, unknown method, invalid argument, raising method_call listener, raising method_return_object listener, raising function, unserialisable return value (XML family)} x {Fault, non-Fault} x listener layout (application / service / inherited-from-base-service / method level, duplicates) x level of the raising listener is enumerated (2,799 cells x 3 argument sets), plus 16 x 600 Hypothesis examples of 8 cells each with generated arguments (quick; thorough 64 x 3000). Every case builds a fresh application; the automaton checks first/last/exactly-once of context_created/closed, function at most once and only after method_call, return_object iff returned, exception_object iff fault followed by the matching document and string events, registration order, duplicates once, inheritance. Bounds: single injected failure per call; synchronous NullServer proxy only; no order asserted between managers of different levels.",
+    note="Trusted: the specification automaton in pbt/props/c14.py (written from the property text and the class docstrings); one shared ordered trace."),
  "C10": dict(
     design="DESIGN.md §3 C10",
     technique="mutation-based fuzzing driven by Hypothesis over generated valid requests (exhaustive prefix truncation, byte edits, structure-aware mutants); oracle: nothing escapes, reply is normal or a Client-family fault, no user function ran on a fault",
